@@ -102,5 +102,34 @@ CHECKS["C20"] = dict(
     technique="TLA+ lifetime/registry model checked with TLC; enumerated histories replayed with a weak-reference census; as-implemented model used for finding attribution",
 )
 
+CHECKS["C01"] = dict(
+    engine="EQLCore",
+    category="model_checking",
+    text=("EQLCore.tla: first-order reference semantics (Sat / Answers over nested-tuple expressions, complete 4-object world) "
+          "next to Ev, a big-step model of the generator pipeline (bound-side-first comparator, AND / ElseIf / Union threading "
+          "of bindings and falsity, Not node vs De Morgan over unions); TLC checks Rows(Ev) = Answers for the and/or/not trees "
+          "of depth 2 over the logic and access vocabularies, algebraic sanity of the reference (double negation, De Morgan, "
+          "empty domains) and refutes the NegUnionFlipsEach switch. Per condition TLC prints the expectation for every "
+          "(domain assignment, selection) case; ~80 000 cases per quick run (logic family exhaustive, logic6 / access / "
+          "quantifier families sampled by seed) are built through the public API and evaluated, rows compared as sets. The "
+          "quantifier family (exists / for_all with their own bound variable) is reference-only."),
+    design_ref="DESIGN.md §4 C01",
+    note=("Trusted: TLC, the concretisation (abstract condition -> public API calls) and projection (objects -> ids). Cases the "
+          "statement does not settle (empty-domain condition variable outside the conjunctive/else-if fragment) are not generated. "
+          "Open finding C01-F05 is attributed by a syntactic signature plus 'missing rows only'."),
+    technique="TLA+ reference semantics + pipeline model checked with TLC; TLC-computed expectations replayed on the real query engine",
+)
+CHECKS["C02"] = dict(
+    engine="EQLCore",
+    category="model_checking",
+    text=("EQLCore.tla Bag: one row per satisfying assignment of all the query's variables, for conditions in the "
+          "negation-normal conjunctive / else-if fragment (InFragment); the pipeline model is checked against Answers by TLC. "
+          "~49 000 fragment cases per quick run are evaluated and compared as multisets; for half of the conditions the(...), "
+          "an(..., Exactly(|Bag|)) and a the / an / the sequence over the same variables must see the true number of solutions."),
+    design_ref="DESIGN.md §4 C02",
+    note="Trusted: TLC, concretisation and projection as for C01. Domains are duplicate-free sequences.",
+    technique="TLA+ bag semantics enumerated with TLC; expectations replayed as multisets on the real query engine",
+)
+
 NOT_YET = "check not built yet in this build round (specified in DESIGN.md §4; will be claimed when its TLA+ module and binding exist)"
 NOT_APPLICABLE = {}
